@@ -435,6 +435,18 @@ def probe_layer(ctx):
               lambda a, b: len(a) == len(b) and all(type(x) is type(y) and x.dtype == y.dtype and x.shape == y.shape
                                                     and np.array_equal(np.ma.filled(x, 99), np.ma.filled(y, 99)) for x, y in zip(a, b))),
              ('partial-load', 'container', lambda: {'a': [1, 2, {'b': (3, 4)}]}, None),
+             # an unmasked array whose entries all equal the fill value must not come back masked
+             ('masked-fill-collision', 'container',
+              lambda: [np.ma.MaskedArray([999999, 999999]), np.ma.MaskedArray([999999, 5], mask=[False, True]),
+                       np.ma.MaskedArray([1., 2.], mask=[True, True])],
+              lambda a, b: len(a) == len(b) and all(type(x) is type(y) and np.array_equal(np.ma.getmaskarray(x), np.ma.getmaskarray(y))
+                                                    and np.array_equal(x.filled(-7), y.filled(-7)) for x, y in zip(a, b))),
+             ('dtype-objects', 'container',
+              lambda: [np.dtype('float64'), np.dtype('complex128'), np.dtype('int64'), np.dtype([('a', '<i4'), ('b', '<f8')]),
+                       np.dtype('<U8'), np.dtype('S5'), np.dtype('>f8'), np.dtype('V8')],
+              lambda a, b: len(a) == len(b) and all(x == y and x.str == y.str for x, y in zip(a, b))),
+             ('ignored-in-list', 'container', lambda: [1, hdf5_io.Hdf5Ignored('skip'), 2],
+              lambda a, b: type(b) is list and len(b) == 3 and b[0] == 1 and b[2] == 2 and isinstance(b[1], hdf5_io.Hdf5Ignored)),
              ]
     try:
         for name, layer, make, same in cases:
@@ -460,6 +472,54 @@ def probe_layer(ctx):
                     ctx.trace_ok(1)
             except Exception as e:
                 ctx.violation(sig, dict(obj=repr(obj), raised='%s: %s' % (type(e).__name__, e)))
+        # the handle given to save_to_hdf5 / load_from_hdf5 may be a sub-group of the file
+        ctx.case('probe:subgroup-handle', action='Probe.subgroup-handle')
+        sig = dict(kind='probe', layer='container', clause='subgroup-handle')
+        obj = {'a': [1, 2], 'b': 'text'}
+        try:
+            with warnings.catch_warnings():
+                warnings.simplefilter('ignore')
+                fn = scratch.h5()
+                with h5py.File(fn, 'w') as f:
+                    f.create_group('sub')
+                    f.create_group('other')
+                    hdf5_io.save_to_hdf5(f['sub'], obj)
+                    hdf5_io.save_to_hdf5(f['other'], [7], 'y')
+                with h5py.File(fn, 'r') as f:
+                    root_names = sorted(f.keys())
+                    back = hdf5_io.load_from_hdf5(f['sub'])
+                    back2 = hdf5_io.load_from_hdf5(f['other'], 'y')
+            if back != obj or back2 != [7] or root_names != ['other', 'sub']:
+                ctx.violation(sig, dict(obj=repr(obj), loaded=repr(back), root_members=root_names))
+            else:
+                ctx.trace_ok(1)
+        except Exception as e:
+            ctx.violation(sig, dict(obj=repr(obj), raised='%s: %s' % (type(e).__name__, e)))
+        # objects outside the supported set: the save must fail loudly (format guideline 0) or the round trip be exact
+        silent = []
+        for o in [b'ab\x00', 'a\x00', np.uint64(5), np.float16(0.5), np.longdouble(1.5), np.array(['ab', 'c']), np.bool_(True)]:
+            ctx.case('probe:unsupported:' + repr(o), action='Probe.unsupported')
+            try:
+                with warnings.catch_warnings():
+                    warnings.simplefilter('ignore')
+                    fn = scratch.h5()
+                    with h5py.File(fn, 'w') as f:
+                        hdf5_io.save_to_hdf5(f, o, 'x')
+            except Exception:
+                continue            # loud failure at save time: nothing was promised
+            try:
+                with warnings.catch_warnings():
+                    warnings.simplefilter('ignore')
+                    with h5py.File(fn, 'r') as f:
+                        back = hdf5_io.load_from_hdf5(f, 'x')
+                if not np.all(back == o) or (type(back) is not type(o) and not isinstance(o, np.bool_)):
+                    silent.append('%r -> %r' % (o, back))
+            except Exception as e:
+                silent.append('%r saved, but loading raises %s: %s' % (o, type(e).__name__, e))
+        if silent:
+            ctx.violation(dict(kind='probe', layer='container', clause='unsupported-saves-silently'), dict(cases=silent))
+        else:
+            ctx.trace_ok(1)
     finally:
         scratch.close()
 
@@ -625,6 +685,11 @@ def gen_instances(seed):
     add('LegPipe-unsorted', lambda: charges.LegPipe([legs['u1'], legs['u1'].conj()], qconj=-1, sort=False, bunch=False))
     add('LegPipe-nested', lambda: charges.LegPipe([charges.LegPipe([legs['u1'], legs['u1-bunched']]), legs['single']], qconj=-1))
     add('LegPipe-u1z2', lambda: charges.LegPipe([legs['u1z2'], legs['u1z2'].conj(), legs['u1z2']]))
+    # sort != bunch, both ways; sub-legs with several blocks, qnumber > 0
+    add('LegPipe-sort-nobunch', lambda: charges.LegPipe([legs['u1'], legs['u1-unsorted']], qconj=1, sort=True, bunch=False))
+    add('LegPipe-nosort-bunch', lambda: charges.LegPipe([legs['u1-bunched'], legs['u1']], qconj=-1, sort=False, bunch=True))
+    add('LegPipe-u1z2-sort-nobunch', lambda: charges.LegPipe([legs['u1z2'], legs['u1z2'].conj()], qconj=-1, sort=True, bunch=False))
+    add('LegPipe-u1z2-nosort-bunch', lambda: charges.LegPipe([legs['u1z2'], legs['u1z2']], qconj=1, sort=False, bunch=True))
 
     # ---- arrays
     def rand_array(ls, qtotal=None, dtype=float, labels=None):
@@ -645,6 +710,10 @@ def gen_instances(seed):
     add('Array-empty-leg', lambda: npc.zeros([legs['empty'], legs['u1']], labels=['e', 'f']))
     add('Array-pipe', lambda: rand_array([legs['u1'], legs['u1-unsorted'], legs['u1'].conj()], labels=['a', 'b', 'c'])
         .combine_legs(['a', 'b']))
+    for sort, bunch in [(True, False), (False, True)]:
+        add('Array-pipe-sort%d-bunch%d' % (sort, bunch), lambda sort=sort, bunch=bunch: _array_on_pipe(npc, charges, legs, rand_array, sort, bunch))
+        add('pipe-site-like-sort%d-bunch%d' % (sort, bunch), lambda sort=sort, bunch=bunch: _site_like_on_pipe(npc, charges, legs, rand_array, sort, bunch))
+    add('Array-pipe-outer-conj', lambda: _array_pipe_outer_conj(npc, charges, ci1))
     add('Array-int', lambda: npc.Array.from_ndarray(np.diag([1, 2, 3, 4]), [legs['u1'], legs['u1'].conj()], dtype=np.int64))
     add('Array-shared-legs', lambda: _shared_arrays(npc, legs, rng))
     # ---- sites
@@ -665,6 +734,7 @@ def gen_instances(seed):
         add(k, f)
     # ---- MPS (sites shared by reference), MPO, lattices, models, terms
     add('MPS-finite', lambda: _mps('finite', 4))
+    add('MPS-L1', lambda: _mps('finite', 1))
     add('MPS-infinite', lambda: _mps('infinite', 2))
     add('MPS-segment', lambda: _mps('finite', 6).extract_segment(1, 4))
     add('MPS-entangled', lambda: _mps_entangled())
@@ -688,6 +758,8 @@ def gen_instances(seed):
     for k, fmk in lat_makers.items():
         add(k, fmk)
     add('DualSquare', lambda: _dual_square(s))
+    add('Lattice-grouped-sites', lambda: tlat.Chain(4, s, bc='periodic', bc_MPS='infinite').with_grouped_sites(
+        [tsite.GroupedSite([s, s])] * 2))
     model_pars = {
         'TFIChain': dict(L=4, bc_MPS='finite', J=1., g=0.5), 'TFIModel': dict(lattice='Square', Lx=2, Ly=2, bc_MPS='finite'),
         'XXZChain': dict(L=4, bc_MPS='finite'), 'XXZChain2': dict(L=2, bc_MPS='infinite'),
@@ -719,10 +791,37 @@ def gen_instances(seed):
     add('TruncationError', lambda: TruncationError(0.25, 0.5) + TruncationError(0.125, 0.75))
     add('Config', lambda: Config(dict(a=1, b=[1, 2.5], sub=dict(c='x'), chi_list={0: 10, 5: 20}), 'conf'))
     add('Config-read', lambda: _config_read(Config))
+    add('Config-nonstring-keys', lambda: Config({1: 'a', 2: 'b'}, 'intkeys'))
     add('MomentumMPS', lambda: _momentum_mps())
     add('UniformMPS', lambda: _uniform_mps())
     add('shared-container', lambda: _shared_container(legs, s))
     return out, failed
+
+
+def _array_on_pipe(npc, charges, legs, rand_array, sort, bunch):
+    a = rand_array([legs['u1'], legs['u1-unsorted'], legs['u1-bunched']], qtotal=[1], labels=['a', 'b', 'c'])
+    pipe = charges.LegPipe([a.legs[0], a.legs[1]], qconj=-1, sort=sort, bunch=bunch)
+    return a.combine_legs(['a', 'b'], pipes=[pipe])
+
+
+def _site_like_on_pipe(npc, charges, legs, rand_array, sort, bunch):
+    """what a GroupedSite holds, but on a pipe with sort != bunch: the pipe and operators p, p* on it"""
+    pipe = charges.LegPipe([legs['u1z2'], legs['u1z2']], qconj=1, sort=sort, bunch=bunch)
+    a = rand_array([legs['u1z2'], legs['u1z2'], legs['u1z2'].conj(), legs['u1z2'].conj()], labels=['p0', 'p1', 'p0*', 'p1*'])
+    op = a.combine_legs([['p0', 'p1'], ['p0*', 'p1*']], pipes=[pipe, pipe.conj()], new_axes=[0, 1]).iset_leg_labels(['p', 'p*'])
+    return dict(leg=pipe, ops=dict(A=op, Id=npc.eye_like(op, 0, labels=['p', 'p*'])), ops_list=[op, op.conj().itranspose(['p', 'p*'])])
+
+
+def _array_pipe_outer_conj(npc, charges, ci1):
+    """a legal pipe state that is not the one the constructor produces from (legs, qconj, sorted, bunched)"""
+    a = charges.LegCharge.from_qflat(ci1, [[0], [1]])
+    b = charges.LegCharge.from_qflat(ci1, [[0], [1], [2]])
+    c = charges.LegCharge.from_qflat(ci1, [[0], [1], [2], [3]], qconj=-1)
+    T = npc.Array.from_func(np.ones, [a, b, c], labels=['a', 'b', 'c'])
+    Tc = T.combine_legs(['a', 'b'])
+    Tc.legs[0] = Tc.legs[0].outer_conj()
+    Tc.test_sanity()
+    return Tc
 
 
 def _missing_blocks(npc, legs):
@@ -971,6 +1070,7 @@ def normalise_reason(why):
         last = re.sub(r'\[[^\]]*\]|\(\)', '', m.group(1).split('.')[-1])
         w = last + ': ' + m.group(2)
     w = re.sub(r'/obj\S*', '<path>', w)
+    w = re.sub(r"missing attribute '\w+'", "missing attribute '<name>'", w)
     w = re.sub(r'0x[0-9a-f]+', '<addr>', w)
     w = re.sub(r'\d+', 'N', w)
     return w[:100]
@@ -1012,7 +1112,8 @@ def class_layer(ctx, only_label=None):
             media += [('hdf5', f) for f in fmts]
             for medium, fmt in media:
                 ctx.case('class:%s:%s:%s' % (label, medium, fmt), action='Class.%s' % medium)
-                sig = dict(kind='class', layer='class', cls=top, medium=medium, format=fmt, has_array=has_array, has_pipe=has_pipe)
+                sig = dict(kind='class', layer='class', cls=top, label=label, medium=medium, format=fmt, has_array=has_array,
+                           has_pipe=has_pipe)
                 detail = dict(label=label, medium=medium, format=fmt, classes=sorted(c.__name__ for c in cls_here))
                 try:
                     with warnings.catch_warnings():
